@@ -1,4 +1,5 @@
 import WhatIs.Model.Dispatch
+import WhatIs.Lemmas.Armor
 /-
   Props/C07.lean — PROPERTY THEOREMS for C07 (signature-based formats take precedence; failed candidates
   leave no trace).  All statements hold for EVERY file name, EVERY content and EVERY behaviour of the
@@ -170,5 +171,32 @@ example : candidates (α := Unit) ⟨fun _ => true, fun _ => .err⟩ (strBytes "
     a 52-byte DER object are also single TLV elements: findings D16 / D67) -/
 theorem text_sniffers_before_asn1 :
     (Gen.filetypes.filterMap (·.identify)) = ["IsUUID", "IsJWT", "IsBase64ASN1", "IsASN1", "IsMixedPEM"] := by decide
+
+-- OpenPGP ASCII ARMOR (Model/Armor.lean: `armor.Decode`, `lineReader`, the CRC-24 comparison) ------------------------------
+
+/-- ARMOR ROUND TRIP: the text the RFC 4880 §6.2 writer produces for ANY block type (non-empty, one line, up to 82
+    bytes) and ANY body — lines of any width from 1 to 96 characters, LF or CRLF, with the checksum line of the body or
+    without one — followed by ANYTHING, is read by the model of the armor reader as exactly that type, no headers, and
+    exactly that body: a well-formed armored key block reaches the packet reader byte for byte. -/
+theorem armor_roundtrip (typ body : Bytes) (hb : body.Valid) (htne : typ ≠ []) (ht10 : 10 ∉ typ) (htlen : typ.length < 83)
+    (w : Nat) (hw : 0 < w) (hw96 : w ≤ 96) (eol : Bytes) (heol : eol = [10] ∨ eol = [13, 10])
+    (crc : Option Nat) (hcrc : crc = none ∨ crc = some (Armor.crc24 body)) (rest : Bytes) :
+    Armor.decode (Spec.ArmorText.text typ body w eol crc ++ rest) = .ok typ [] body :=
+  Lemmas.Armor.decode_text typ body hb htne ht10 htlen w hw hw96 eol heol crc hcrc rest
+
+/-- … and a checksum line that does not match the body makes it unreadable (so the PGP candidate fails and, by
+    `PEMFile`'s rule for "PGP …" labels, nothing PEM-ish is shown either) -/
+theorem armor_bad_checksum_rejected (typ body : Bytes) (hb : body.Valid) (htne : typ ≠ []) (ht10 : 10 ∉ typ)
+    (htlen : typ.length < 83) (w : Nat) (hw : 0 < w) (hw96 : w ≤ 96) (eol : Bytes) (heol : eol = [10] ∨ eol = [13, 10])
+    (c : Nat) (hc : c < 16777216) (hne : c ≠ Armor.crc24 body) (rest : Bytes) :
+    Armor.decode (Spec.ArmorText.text typ body w eol (some c) ++ rest) = .corrupt :=
+  Lemmas.Armor.decode_text_badcrc typ body hb htne ht10 htlen w hw hw96 eol heol c hc hne rest
+
+-- non-vacuity: a CRLF block wrapped at 4 with its checksum, text after it
+set_option maxRecDepth 100000 in
+example : (match Armor.decode (Spec.ArmorText.text (strBytes "PGP PUBLIC KEY BLOCK") [1, 2, 3, 4, 5] 4 [13, 10]
+    (some (Armor.crc24 [1, 2, 3, 4, 5])) ++ strBytes "tail") with
+    | .ok t hs d => decide (t = strBytes "PGP PUBLIC KEY BLOCK" ∧ hs = [] ∧ d = [1, 2, 3, 4, 5])
+    | _ => false) = true := by decide
 
 end WhatIs.C07
